@@ -3,10 +3,15 @@ CONSTANTS
   Producers <- MCProducers
   Flushers <- MCFlushers
   Stoppers <- MCStoppers
+  Outcomes <- MCOutcomes
+  Expiring <- MCExpiring
   SpansPer = @SPANSPER@
   QCap = @QCAP@
   MaxBatch = @MAXBATCH@
   Blocking = @BLOCKING@
   AllowKnown = @ALLOWKNOWN@
-INVARIANTS NoDup BatchBound Contract DroppedCounted MutexOK @STUCK@
+  CodeShape = "@CODESHAPE@"
+  ExportTimeout = @EXPORTTIMEOUT@
+  ResetOnFailure = @RESETONFAILURE@
+INVARIANTS NoDup BatchBound Contract DroppedCounted MutexOK Accounting @STUCK@
 CHECK_DEADLOCK FALSE
